@@ -44,7 +44,9 @@ def parse_log(path, limit=24 << 20):
             data = f.read(limit)
     except OSError:
         return out
-    for line in data.decode("utf-8", "replace").splitlines():
+    lines = data.decode("utf-8", "replace").split("\n")
+    lines.pop()          # text after the last newline: empty, or a record cut short by a crash / by `limit`
+    for line in lines:
         m = REC_RE.match(line)
         if not m:
             continue
